@@ -1141,30 +1141,24 @@ fn getset_command(
         anyhow::bail!("Must specify either sample names or --prefix");
     };
 
-    // If output file specified, extract to file
-    // Otherwise, extract to stdout (via temp file for simplicity)
+    // write_sample_fasta (re)creates its output file, so each sample is extracted to a temp
+    // file and the records of all requested samples are collected in request order.
+    let temp_path = std::env::temp_dir().join(format!("agc_extract_{}.fasta", std::process::id()));
+    let mut contents = Vec::new();
+    for sample_name in &samples_to_extract {
+        if verbosity > 0 {
+            eprintln!("Extracting sample: {sample_name}");
+        }
+        decompressor.write_sample_fasta(sample_name, &temp_path)?;
+        contents.extend(std::fs::read(&temp_path)?);
+    }
+    std::fs::remove_file(&temp_path)?;
+
+    // If output file specified, write there; otherwise to stdout
     if let Some(output_path) = output {
-        // Extract each sample to the output file (append mode)
-        for sample_name in &samples_to_extract {
-            if verbosity > 0 {
-                eprintln!("Extracting sample: {sample_name}");
-            }
-            decompressor.write_sample_fasta(sample_name, &output_path)?;
-        }
+        std::fs::write(&output_path, &contents)?;
     } else {
-        // Extract to temp file then write to stdout
-        let temp_path =
-            std::env::temp_dir().join(format!("agc_extract_{}.fasta", std::process::id()));
-        for sample_name in &samples_to_extract {
-            if verbosity > 0 {
-                eprintln!("Extracting sample: {sample_name}");
-            }
-            decompressor.write_sample_fasta(sample_name, &temp_path)?;
-        }
-        // Write temp file to stdout
-        let contents = std::fs::read(&temp_path)?;
         io::stdout().write_all(&contents)?;
-        std::fs::remove_file(&temp_path)?;
     }
 
     decompressor.close()?;
